@@ -12,12 +12,12 @@ EXPLANATION = (
     "to the EnvelopeCase variant it builds). C05.1: the tables are mutually inverse except the listed alias Tagged(24)->Leaf. "
     "C05.2: assertion writer inserts exactly untagged(predicate)->untagged(object); reader builds Assertion::new(decode(key), "
     "decode(value)). C05.3: node writer emits [untagged(subject)] ++ untagged(assertions) in stored order; reader decodes "
-    "element 0 as subject and the tail 1.. in order. C05.4: decoder accept values are constructor calls (digests recomputed). "
+    "element 0 as subject and the tail 1.. in order. C05.4: decoder accept values are constructor calls (digests recomputed). C05.5: the assertion-or-obscured predicate with which the decoder validates assertion slots has the expected table (Assertion / node over assertion; elided | encrypted | compressed subject), so everything the constructors can put into a slot is read back. "
     "Does not decide dCBOR's own canonical round-trip of leaf values, nor the UR text codec.")
 TRUSTED = ['dcbor: CBOR::to_tagged_value builds Tagged(tag, item); Map iterates in key order; CBOR::try_from_data accepts only dCBOR',
            'shape of dependency encoders is re-derived from the dcbor / bc-components MIR on every run']
 ALIASES = {('Tagged', 24): 'Leaf'}   # deprecated leaf tag #6.24 read as #6.201 (named in the property)
-FLOORS = {'C05.1': 8, 'C05.2': 2, 'C05.3': 2}
+FLOORS = {'C05.1': 8, 'C05.2': 2, 'C05.3': 2, 'C05.5': 2}
 
 
 def check(ctx):
@@ -147,3 +147,15 @@ def check(ctx):
             ctx.fail('C05.4', ctx.site(b, bi, si), 'accept value is not a constructor call: %s' % fmt(t), key='C05.4|%s' % kind)
         else:
             ctx.ok('C05.4', ctx.site(b, bi, si), '%s%s -> constructor of %s (digest recomputed, see C01.2)' % (kind, tags if tags != [None] else '', sorted(vs)))
+
+
+_check_inner = check
+
+
+def check(ctx):
+    _check_inner(ctx)
+    # C05.5: what the constructors emit must be accepted back: the reader validates assertion slots with the same
+    # assertion-or-obscured predicate the add paths enforce, so that predicate's table is part of the round trip.
+    from . import C04
+    from .C07 import Relabel
+    C04.check_predicates(Relabel(ctx, 'C05.5', ['C04.4/pred']))
